@@ -2,8 +2,9 @@
    the generated table (coq/gen/ChainAdapters.v).  The statements hold for all index arguments (Z): the decider
    splits the plane of argument pairs into the three regions a < b, a = b, a > b, in each of which every
    conditional of the fragment is decided, and compares the resolved body with the specification. *)
-From Coq Require Import List String Bool ZArith Lia.
+From Coq Require Import List String Bool ZArith QArith Lia.
 From TK Require Import Chain_Model Chain_Spec Chain_Adapt_Model Chain_Adapt_Spec ChainAdapters Uses.
+Local Close Scope Q_scope.
 Import ListNotations.
 Local Open Scope string_scope.
 
@@ -269,6 +270,19 @@ Proof.
   rewrite Hr. subst role.
   destruct Hfam; subst fam; cbn [family_roles] in Hrole; inversion Hrole as [Hname];
     cbn [spec_value] in Hv; rewrite <- Hname in Hv; cbn in Hv; inversion Hv; reflexivity.
+Qed.
+
+Theorem precomputed_returns_matrix_value_proof : forall fam, fam = FPreKernel \/ fam = FPreDistance ->
+  exists c mb, In c (ad_classes adapters_gen) /\ ac_name c = family_class fam /\ In mb (ac_members c) /\
+    In (am_name mb) (family_roles fam) /\
+    forall (M : string -> Z -> Z -> Q) (a b : Z),
+      denote_entry M (run_member c mb [a; b]) = Some (M (ac_field c) a b).
+Proof.
+  intros fam Hfam.
+  destruct (precomputed_returns_entry_proof fam Hfam) as [c [mb [role [Inc [Hn [Inm [Hr [Hm Hrun]]]]]]]].
+  exists c, mb. repeat split; try assumption.
+  - rewrite Hr, Hm. left. reflexivity.
+  - intros M a b. rewrite Hrun. reflexivity.
 Qed.
 
 Lemma callsites_ok_sound : forall t, callsites_ok t = true ->
